@@ -18,6 +18,7 @@ def dispatch (m : String) (j : Json) : Except String Json :=
   | "hash" => hash j
   | "fill" => fill j
   | "pool" => pool j
+  | "mpool" => mpool j
   | "sb" => sb j
   | "rr" => rr j
   | "batches" => batchesJ j
